@@ -96,14 +96,23 @@ def user_config(case: dict[str, Any]) -> dict[str, Any]:
     return config
 
 
-def run_both_steps(config: dict[str, Any], transforms: Any, fail: bool = False, share: bool = False) -> dict[str, Any]:
+def run_both_steps(config: dict[str, Any], transforms: Any, fail: bool = False, share: bool = False, reenter: bool = False) -> dict[str, Any]:
     from ropt.enums import EventType
     from ropt.plan import OptimizerContext, Plan
 
     manager, scripted = make_manager()
     # fail: realization 1 fails in the evaluator step (call 0), so its results carry no functions - their variables and
     # bound / linear differences are still reported and must not depend on the transforms
-    evaluator = TableEvaluator(ensemble_fn(), 2, 1, fail=(lambda call, row, r, p: [0] if (fail and call == 0 and r == 1) else None))
+    state = {"entered": False}
+
+    def hook(call_index: int, _evaluator: Any) -> None:
+        # reenter: while the evaluator step is calling the evaluator, the user runs the SAME step again for a baseline
+        # value WITHOUT transforms; the outer run still reports in the user domain
+        if reenter and not state["entered"]:
+            state["entered"] = True
+            plan.run_step(ev_step, config=copy.deepcopy(config), transforms=None, variables=X_EVAL[0])
+
+    evaluator = TableEvaluator(ensemble_fn(), 2, 1, fail=(lambda call, row, r, p: [0] if (fail and call == 0 and r == 1) else None), hook=hook)
     context = OptimizerContext(evaluator=evaluator, plugin_manager=manager)
     events: list[Any] = []
     context.add_observer(EventType.FINISHED_EVALUATION, events.append)
@@ -188,6 +197,22 @@ def judge(case: dict[str, Any]) -> Judgement:
         j.fail(f"transformed-run-raised:{type(exc).__name__}", message=str(exc)[:200])
         return j
     j.transitions = 4
+    # re-entrant use of the evaluator step from inside the evaluator, without transforms
+    if not case.get("fail") and case["sampler"] == "design" and case["ptype"] == 1:
+        try:
+            plain_re = run_both_steps(config, None, False, reenter=True)
+            trans_re = run_both_steps(config, transforms, False, reenter=True)
+            j.transitions += 4
+            a_items, b_items = collect(plain_re["events"]), collect(trans_re["events"])
+            if [n for n, _ in a_items] != [n for n, _ in b_items]:
+                j.fail("re-entrant-step:different-result-structure")
+            else:
+                for (name, a), (_, b) in zip(a_items, b_items):
+                    if (a is None) != (b is None) or (a is not None and not close(b, a, 1e-9)):
+                        j.fail(f"re-entrant-step:user-domain-result-differs:{name.split(':', 1)[1]}", plain=a, transformed=b)
+                        break
+        except Exception as exc:  # noqa: BLE001
+            j.fail(f"re-entrant-step:raised:{type(exc).__name__}", message=str(exc)[:200])
     # ONE validated LinearConstraintsConfig object placed in the configuration of a transformed run and then of an
     # untransformed run: the second use sees the user's constraints, not what the first validation made of them
     if "linear_constraints" in config and not case.get("fail") and not case["obj"] and not case["con"]:
